@@ -149,10 +149,26 @@ def main(argv=None):
     # single-index enumeration harnesses: the size of each partition's product space is computed from its dimensions
     if hasattr(mod, "DIMS"):
         from kit.h import space_size
+        cap = 5000 if tier == "quick" else 12000       # points per process; bigger partitions are sliced round-robin
+        sliced = []
         for j in jobs:
             fn = mod.DIMS.get(j["func"])
-            if fn is not None and "n" not in j["part"]:
-                j["part"]["n"] = space_size(fn(j["part"]))
+            if fn is None:
+                sliced.append(j)
+                continue
+            total = space_size(fn(j["part"]))
+            key = "npoints" if "npoints" in j["part"] else "n"
+            if total <= cap:
+                j["part"][key] = total
+                sliced.append(j)
+                continue
+            m = (total + cap - 1) // cap
+            for k in range(m):
+                jj = dict(j, part=dict(j["part"]))
+                jj["part"]["islice"] = [k, m]
+                jj["part"][key] = (total - k + m - 1) // m
+                sliced.append(jj)
+        jobs = sliced
     if a.only:
         jobs = [j for j in jobs if a.only in job_label(j)]
     if seed:
